@@ -114,6 +114,11 @@ def run_echo(c):
         c.echo('ctc_2021_base', v, '1040_s8812.5_ws_4', 4000, p)
         c.echo('ctc_2021_line5wkst_line6', v, '1040_s8812.5_ws_6', st.amount('ctc_2021_line5wkst_line6', y, s), p)
         c.echo('ctc_2021_first_phaseout', v, '1040_s8812.5_ws_8', st.amount('ctc_2021_first_phaseout', y, s), p)
+        # Part III line 33: only figured when the advance payments exceed the credit and Letter 6419 counted more children
+        p3 = scen.plain_persona(y, s, 47000 if s in ('MFJ', 'QSS') else 38000, deps_ctc=1, deps_odc=1)
+        p3.advance_ctc, p3.letter_children = 5200.0, 3
+        out3, tv3, v3 = c.solve(p3)
+        c.echo('ctc_2021_repayment_protection_agi', v3, '1040_s8812.33', st.amount('ctc_2021_repayment_protection_agi', y, s), p3)
     else:
         c.echo('ctc_per_child', v, '1040_s8812.5', st.amount('ctc_per_child', y) * 2, p)
         # additional child tax credit cap: needs credit > tax
@@ -381,7 +386,7 @@ def expected_triples():
                 tr.add(f'{y}|ctc_per_child|{s}')
                 tr.add(f'{y}|actc_cap_per_child|{s}')
             else:
-                for a in ('rrc_per_person', 'rrc_phaseout_start', 'rrc_phaseout_end', 'rrc_denominator', 'cash_charity_nonitemizer', 'ctc_2021_line5wkst_line6', 'ctc_2021_first_phaseout'):
+                for a in ('rrc_per_person', 'rrc_phaseout_start', 'rrc_phaseout_end', 'rrc_denominator', 'cash_charity_nonitemizer', 'ctc_2021_line5wkst_line6', 'ctc_2021_first_phaseout', 'ctc_2021_repayment_protection_agi'):
                     tr.add(f'{y}|{a}|{s}')
             for edge, amt in st.NC_CHILD[y][s]:
                 tr.add(f'{y}|nc_child_deduction#{edge}|{s}')
